@@ -24,6 +24,8 @@ FILES = {
     "pkg11/zz11.py": "class B:\n    pass\n\nclass C:\n    pass\n",
     "foo11.py": "class Baz:\n    pass\n\nclass foo11:\n    class Inner:\n        pass\n",
     "barfoo11.py": "class Baz:\n    pass\n",
+    # a module whose name ends in "typing", a class whose name contains "NoneType"
+    "mytyping11.py": "class Foo:\n    pass\n\nclass NoneTypeish:\n    pass\n",
     "target11.py": "class Own:\n    class Deep:\n        pass\n\ndef f(x):\n    return x\n\ndef g(d):\n    return d\n\ndef h(x, y):\n    return x\n\nclass K:\n    def m(self, x):\n        return x\n",
 }
 
@@ -156,7 +158,8 @@ def run(ctx):
                 f.write(src)
         importlib.invalidate_caches()
         zz, pzz, foo, barfoo, target = (importlib.import_module(n) for n in ("zz11", "pkg11.zz11", "foo11", "barfoo11", "target11"))
-        leaves = [int, str, NoneType, Any, zz.B, zz.B.Nested, zz.zz11, pzz.B, pzz.C, foo.Baz, foo.foo11, foo.foo11.Inner, barfoo.Baz, target.Own, target.Own.Deep, io.StringIO]
+        myt = importlib.import_module("mytyping11")
+        leaves = [myt.Foo, myt.NoneTypeish, int, str, NoneType, Any, zz.B, zz.B.Nested, zz.zz11, pzz.B, pzz.C, foo.Baz, foo.foo11, foo.foo11.Inner, barfoo.Baz, target.Own, target.Own.Deep, io.StringIO]
         types = list(leaves)
         for a in leaves:
             types += [List[a], Optional[a] if a not in (NoneType, Any) else List[a], Dict[str, a], Tuple[a, int], Type[a] if isinstance(a, type) and a is not NoneType else Set[a], Iterator[a]]
@@ -244,7 +247,7 @@ def run(ctx):
                                 {"x": repr(a), "y": repr(List[b])}, {"error": repr(err), "evaluated": repr(got), "stub": text[-500:]})
     finally:
         sys.path.remove(tmp)
-        for n in ("zz11", "pkg11.zz11", "pkg11", "foo11", "barfoo11", "target11"):
+        for n in ("zz11", "pkg11.zz11", "pkg11", "foo11", "barfoo11", "target11", "mytyping11"):
             sys.modules.pop(n, None)
         shutil.rmtree(tmp, ignore_errors=True)
     return H.result()
